@@ -18,6 +18,7 @@ path to inner.call and is neither dropped nor moved on any path until the awaite
 completed (so it is released on completion, on error and when the future is dropped — RAII), and the
 crate never forgets, leaks, adds or closes permits.
 One layer out: clones share the semaphore map, poll_ready only delegates, the configured maximum is stored as given, PeerId equality/hash are derived.
+Generated servers stack a per-method layer on those already installed (add_layer_for_* of the code generated from the current templates).
 """
 TRUSTED = ["tokio Semaphore counting and SemaphorePermit release-on-drop", "DashMap entry API atomicity"]
 NOT_DECIDED = ["fairness / wake-up order of blocked requests", "counting over long histories (follows per request from the permit's RAII lifetime)"]
@@ -258,6 +259,7 @@ def run(cx):
             check_fieldwise_clone(ob, prog, ty)
         check_poll_ready_delegates(ob, prog, "anemo_tower::inflight_limit::InflightLimit")
         check_peer_id_identity_derived(ob, prog)
+        check_generated_layer_stacking(ob, prog)          # (a per-method layer installed on a generated server stays installed)
         # the configured maximum is stored and handed on as given (no clamp, no default substituted): constructors and layer()
         IL = "anemo_tower::inflight_limit"
         for fn_, want in ((f"{IL}::InflightLimitLayer::new", "param"), (f"{IL}::InflightLimit::new", "param"), (f"{IL}::InflightLimit::layer", "param"),
